@@ -285,7 +285,13 @@ func parseComment(s string, line int) (parsed []Comment) {
 				} else {
 					state = needsValue
 				}
-
+				goto NEXT
+			}
+			// Invalid character in the comment type, ignore this comment.
+			buf.Reset()
+			state = needsHash
+			if r == '#' {
+				goto READRUNE
 			}
 		case needsValue:
 			if unicode.IsSpace(r) {
